@@ -5,6 +5,7 @@ import (
 	"go/ast"
 	"go/constant"
 	"go/token"
+	"go/types"
 )
 
 // indexGuarded recognises the bounds guards of an index expression X[I]:
@@ -35,6 +36,89 @@ func indexGuarded(r *Run, fl *Flow, e *ast.IndexExpr) (bool, string) {
 	gn := fl.G.NodeContaining(e.Pos())
 	if gn == nil {
 		return false, ""
+	}
+	lenOf := func(c *Ctx, x ast.Expr) (string, bool) {
+		call, ok := ast.Unparen(x).(*ast.CallExpr)
+		if ok && IsBuiltinCall(c.Info, call, "len") && len(call.Args) == 1 {
+			return CanonExpr(c, call.Args[0]), true
+		}
+		return "", false
+	}
+	// range index of an enclosing loop over some other slice Y
+	rangeOver := func(idx ast.Expr) (string, bool) {
+		id, ok := ast.Unparen(idx).(*ast.Ident)
+		if !ok {
+			return "", false
+		}
+		io := c.Info.ObjectOf(id)
+		for p := r.W.Parent(e); p != nil; p = r.W.Parent(p) {
+			if rs, ok := p.(*ast.RangeStmt); ok {
+				if k, ok := rs.Key.(*ast.Ident); ok && c.Info.ObjectOf(k) == io {
+					if _, isMap := c.Info.TypeOf(rs.X).Underlying().(*types.Map); !isMap {
+						return CanonExpr(c, rs.X), true
+					}
+				}
+			}
+			switch p.(type) {
+			case *ast.FuncDecl, *ast.FuncLit:
+				return "", false
+			}
+		}
+		return "", false
+	}
+	// (g4) I ranges over Y and len(X) == len(Y) was established
+	if y, ok := rangeOver(e.Index); ok {
+		eqLen := func(val bool) func(c *Ctx, a ast.Expr) bool {
+			return func(c *Ctx, a ast.Expr) bool {
+				b, ok := ast.Unparen(a).(*ast.BinaryExpr)
+				if !ok {
+					return false
+				}
+				l, okL := lenOf(c, b.X)
+				rr, okR := lenOf(c, b.Y)
+				if !okL || !okR || !((l == wantX && rr == y) || (l == y && rr == wantX)) {
+					return false
+				}
+				return (val && b.Op == token.EQL) || (!val && b.Op == token.NEQ)
+			}
+		}
+		if ControlledBy(fl, gn, eqLen(true), true) || ControlledBy(fl, gn, eqLen(false), false) {
+			return true, fmt.Sprintf("index ranges over another slice whose length was tested to equal len(%s)", ExprStr(e.X))
+		}
+	}
+	// (g5) I = A + J, J ranges over G, and `A + len(G) > len(X)` was tested and failed
+	if b, ok := ast.Unparen(e.Index).(*ast.BinaryExpr); ok && b.Op == token.ADD {
+		for _, pr := range [][2]ast.Expr{{b.X, b.Y}, {b.Y, b.X}} {
+			a, j := pr[0], pr[1]
+			g, ok := rangeOver(j)
+			if !ok {
+				continue
+			}
+			wantA := CanonExpr(c, a)
+			tooBig := func(c *Ctx, at ast.Expr) bool {
+				cmp, ok := ast.Unparen(at).(*ast.BinaryExpr)
+				if !ok || (cmp.Op != token.GTR && cmp.Op != token.GEQ) {
+					return false
+				}
+				sum, ok := ast.Unparen(cmp.X).(*ast.BinaryExpr)
+				if !ok || sum.Op != token.ADD {
+					return false
+				}
+				lx, okx := lenOf(c, cmp.Y)
+				if !okx || lx != wantX {
+					return false
+				}
+				for _, q := range [][2]ast.Expr{{sum.X, sum.Y}, {sum.Y, sum.X}} {
+					if lg, ok := lenOf(c, q[1]); ok && lg == g && CanonExpr(c, q[0]) == wantA {
+						return cmp.Op == token.GTR // A+len(G) > len(X) false ⇒ A+len(G) <= len(X) ⇒ A+J < len(X)
+					}
+				}
+				return false
+			}
+			if ControlledBy(fl, gn, tooBig, false) {
+				return true, fmt.Sprintf("behind a failed test that %s + len(range) exceeds len(%s)", ExprStr(a), ExprStr(e.X))
+			}
+		}
 	}
 	isLenX := func(c *Ctx, x ast.Expr) bool {
 		call, ok := ast.Unparen(x).(*ast.CallExpr)
